@@ -278,4 +278,4 @@ def keyed_access(prog, rep):
         if name == "resource_changed":
             rep.ob("C14.5", "resource_changed|creates-nothing", not creating,
                    "a notification round can insert into the resource map (%s): an unobserved path gets an entry" % "; ".join(creating[:2]), site)
-    rep.floor("C14.4", "calls on the resource map reachable from the per-path operations", n_calls, 5)
+    rep.floor("C14.4", "calls on the resource map reachable from the per-path operations", n_calls, 3)
